@@ -220,6 +220,25 @@ class _Emit(Client):
                                               f"default {src(av.args[1])}) instead of by `cursor in storage`: an item that is falsy or equal "
                                               f"to the default ('' / 0 / None) is taken out of the storage but neither emitted nor counted, "
                                               f"and its successors are held back forever"))
+                # the same written without the assignment expression (what N41 makes of it):
+                #   x = storage.pop(cursor, default);  if x is None / not x: break        (or a loop / if test on x right behind it)
+                st_ = par
+                if isinstance(st_, ast.Assign) and len(av.args) >= 2:
+                    blk_ = None
+                    up_ = getattr(st_, "_parent", None)
+                    for fld_ in ("body", "orelse", "finalbody"):
+                        b_ = getattr(up_, fld_, None)
+                        if isinstance(b_, list) and st_ in b_:
+                            blk_ = b_
+                    nxt_ = blk_[blk_.index(st_) + 1] if blk_ and blk_.index(st_) + 1 < len(blk_) else None
+                    tests_ = [nxt_.test] if isinstance(nxt_, (ast.If, ast.While)) else []
+                    if isinstance(up_, ast.While) and blk_ is up_.body:
+                        tests_.append(up_.test)
+                    if any(isinstance(x_, ast.Name) and x_.id == node.id for t_ in tests_ for x_ in ast.walk(t_)):
+                        self.problems.append((node.lineno, f"the drain is guarded by a test of the popped *value* `{node.id}` (pop with the "
+                                              f"default {src(av.args[1])}) instead of by `cursor in storage`: an item that is falsy or equal "
+                                              f"to the default ('' / 0 / None) is taken out of the storage but neither emitted nor counted, "
+                                              f"and its successors are held back forever"))
                 self.popped = getattr(self, "popped", set()) | {node.id}
                 if len(av.args) == 1 and not guard:
                     self.problems.append((node.lineno, "storage.pop(cursor) without a dominating `cursor in storage` test"))
